@@ -1,7 +1,7 @@
 """C08 — Fourier filter splits the data exactly, removes only low-r signal (real code)."""
 import numpy as np
 import impl, cases
-from .common import tolist
+from .common import tolist, Unchanged
 from .c02 import weights
 
 LEAN = "PystogVerif.Props.C08"
@@ -34,6 +34,18 @@ def evaluate(case):
     name = case["entry"].split(".")[1]
     X, Y = name.split("_using_")
     out, (r, gr, q, fq, cutoff, dgr, dfq) = run(case)
+    # the caller's arrays must be what they were: otherwise removed + corrected no longer adds back to the input the caller holds,
+    # and a second call on the same arrays filters already-filtered data
+    ff = impl.obj("FourierFilter")
+    r1, g1, q1, f1 = r.copy(), gr.copy(), q.copy(), fq.copy()
+    guard = Unchanged(r1, g1, q1, f1)
+    with np.errstate(all="ignore"):
+        first = getattr(ff, name)(r1, g1, q1, f1, cutoff, dgr, dfq, **kw)
+        again = getattr(ff, name)(r1, g1, q1, f1, cutoff, dgr, dfq, **kw)
+    if guard.violated():
+        return [f"{name}: the filter modifies an input array in place (removed + corrected no longer adds back to the caller's data)"]
+    if not all(np.array_equal(np.asarray(a), np.asarray(b), equal_nan=True) for a, b in zip(first, again)):
+        return [f"{name}: calling the filter twice on the same arrays gives different results"]
     q_ft, rem, qc, cor, ro, go, drem, dcor, dgo = [np.asarray(o, dtype=float) for o in out]
     fails = []
     t = kw["<b_tot^2>"]
